@@ -242,6 +242,22 @@ def vers(name):
     return {'ver_pub': c.extended_public_key_prefix.hex(), 'ver_priv': c.extended_private_key_prefix.hex()}
 
 
+# class-level signature of the one finding that every non-master key shows (so it can be recorded as one known finding)
+FP_SIGNATURE = {'op': 'xparse', 'finding': 'parent-fingerprint-dropped'}
+
+
+def report(run, case, what, signature):
+    """run.violation, except that the class-level fingerprint finding is reported at most twice per run (it shows on
+    every key below the master and would crowd every other violation out of the report)"""
+    if signature == FP_SIGNATURE:
+        n = getattr(run, '_c06_fp_reports', 0)
+        run._c06_fp_reports = n + 1
+        run.count('finding:parent-fingerprint-dropped')
+        if n >= 2:
+            return
+    run.violation(case, what, signature=signature)
+
+
 ERR_PATTERNS = [
     (Base58Error, 'string cannot be empty', 'EEmpty'),
     (Base58Error, 'invalid base 58 character', 'EChar'),
@@ -443,14 +459,20 @@ def do_xparse(run, model, case):
     run.case(case, nontrivial=True)
     run.count('xparse:' + ('ok' if 'ok' in impl else impl['err']))
     bad = None
+    fp_only = False
     if 'ok' in impl:
         k = impl['ok']['key']
-        want = e[:5] + b'\0' * 4 + e[9:]
+        want = e
+        zeroed = e[:5] + b'\0' * 4 + e[9:]
         if (k['depth'], k['n'], k['cc']) != (e[4], int.from_bytes(e[9:13], 'big'), e[13:45].hex()) or \
                 k['key'] != (e[45:] if k['kind'] == 'pub' else e[46:]).hex():
             bad = f'parsed fields {k} do not match the bytes'
+        elif impl['ok']['again'] != want.hex() and impl['ok']['again'] == zeroed.hex():
+            bad = (f'extended key does not survive decode -> encode: parent fingerprint {e[5:9].hex()} comes back as 00000000 '
+                   f'(in {want.hex()[:26]}.., out {impl["ok"]["again"][:26]}..)')
+            fp_only = True
         elif impl['ok']['again'] != want.hex():
-            bad = 're-serialised key differs from the input outside the parent fingerprint'
+            bad = 're-serialised key differs from the input'
         elif k['kind'] == 'pub' and ec_decompress(e[45:]) is None:
             bad = 'accepted a public key that is not a curve point'
         elif k['kind'] == 'priv' and not 0 < int.from_bytes(e[46:], 'big') < ORDER:
@@ -463,8 +485,9 @@ def do_xparse(run, model, case):
         if wf:
             bad = f'well-formed extended key rejected: {impl}'
     if bad:
-        run.violation(case, bad, signature={'op': 'xparse', 'e': e.hex(), 'ledger': case['ledger']})
-    else:
+        report(run, case, bad, FP_SIGNATURE if fp_only else {'op': 'xparse', 'e': e.hex(), 'ledger': case['ledger']})
+    if not bad or fp_only:
+        # the model describes the code as it is (the known fingerprint finding included)
         run.compare('C06.xk_from_extended', case, impl, mod)
 
 
@@ -477,6 +500,7 @@ def do_xstr(run, model, case):
     run.case(case, nontrivial=True, sample=False)
     run.count('xstr:' + ('ok' if 'ok' in impl else impl['err']))
     bad = None
+    fp_only = False
     if 'ok' in impl:
         # accepted => the string is the Base58Check form of 78 bytes and the key object shows exactly those fields
         k = impl['ok']
@@ -487,11 +511,15 @@ def do_xstr(run, model, case):
         elif (k['depth'], k['n'], k['cc']) != (e[4], int.from_bytes(e[9:13], 'big'), e[13:45].hex()) or \
                 k['key'] != (e[45:] if k['kind'] == 'pub' else e[46:]).hex():
             bad = f'key parsed from {t!r} shows fields {k} that differ from the encoded bytes'
+        elif k['pfp'] != e[5:9].hex():
+            bad = (f'extended-key string does not survive decode -> encode: {t!r} carries parent fingerprint {e[5:9].hex()}, '
+                   f'the parsed key reports {k["pfp"]} and encodes to {ref_b58check(e[:5] + bytes.fromhex(k["pfp"]) + e[9:])!r}')
+            fp_only = True
     elif impl['err'].startswith('Other:'):
         bad = f'from_extended_key_string({t!r}) raised {impl["err"]}'
     if bad:
-        run.violation(case, bad, signature={'op': 'xstr', 't': t, 'ledger': case['ledger']})
-    else:
+        report(run, case, bad, FP_SIGNATURE if fp_only else {'op': 'xstr', 't': t, 'ledger': case['ledger']})
+    if not bad or fp_only:
         run.compare('C06.xk_of_string', case, impl, mod)
 
 
@@ -627,11 +655,26 @@ def do_derive(run, model, case):
                   lambda: (cur.extended_key_string(), cur.public_key.extended_key_string())):
         back = guarded(lambda: key_obs(from_extended_key_string(led, s)))
         orig = must('reading the final key', lambda: key_obs(cur if s.startswith(('xprv', 'tprv')) else cur.public_key))
-        orig['pfp'] = '00000000'
         if back != {'ok': orig}:
-            run.violation(case, f'from_extended_key_string({s}) = {back}, expected {orig}', signature=sig)
-            return
+            only_fp = 'ok' in back and dict(back['ok'], pfp=orig['pfp']) == orig
+            again = guarded(lambda: from_extended_key_string(led, s).extended_key_string())
+            report(run, dict(case, kind='string-roundtrip'),
+                   (f'extended-key string does not survive decode -> encode: {s} comes back as {again.get("ok")} '
+                           f'(parent fingerprint {orig["pfp"]} -> {back["ok"]["pfp"]})') if only_fp else
+                   f'from_extended_key_string({s}) = {back}, expected {orig}',
+                   FP_SIGNATURE if only_fp else sig)
+            if not only_fp:
+                return
         run.compare('C06.xk_of_string', case, back, model.call('xk_of_string', t=thex(s), **v))
+    # the public key of the key parsed from the xprv string is the key of the xpub string, fingerprint included
+    xprv_s, xpub_s = cur.extended_key_string(), cur.public_key.extended_key_string()
+    via = guarded(lambda: from_extended_key_string(led, xprv_s).public_key.extended_key_string())
+    if via != {'ok': xpub_s}:
+        only_fp = 'ok' in via and ref_b58decode(via['ok'])[:5] + ref_b58decode(via['ok'])[9:-4] == \
+            ref_b58decode(xpub_s)[:5] + ref_b58decode(xpub_s)[9:-4]
+        report(run, dict(case, kind='xprv-string-to-xpub'),
+               f'public key of the key parsed from {xprv_s} serialises as {via.get("ok", via)}, the key itself gives {xpub_s}',
+               FP_SIGNATURE if only_fp else sig)
 
 
 def do_forced(run, model, case):
@@ -1131,6 +1174,12 @@ def do_addrcheck(run, model, case):
         run.violation(case, f'address of hash160 {h160.hex()} is {addr!r}, Base58Check gives {ref_b58check(prefix + h160)!r}',
                       signature={'op': 'addrcheck', 'ledger': case['ledger'], 'kind': case['kind'], 'h160': case['h160']})
         return
+    back = guarded(lambda: bytes(cls.address_to_hash160(addr)).hex())
+    if back != {'ok': h160.hex()}:
+        run.violation(case, f'{cls.__name__}.address_to_hash160({addr!r}) = {back}, the address was made from hash160 {h160.hex()}',
+                      signature={'op': 'addrcheck', 'ledger': case['ledger'], 'kind': case['kind'], 'h160': case['h160']})
+        return
+    run.compare('C06.address_to_hash160', case, back, model.call('address_to_hash160', a=thex(addr)))
     do_addrvalid(run, model, {'op': 'addrvalid', 'ledger': case['ledger'], 'a': addr})
     for other in LEDGERS:
         if other != case['ledger']:
@@ -1273,6 +1322,81 @@ def do_single(run, model, case):
     run.compare('C06.address', case, {'ok': want}, model.call('address', prefix=prefix.hex(), pk=impl['pk']))
 
 
+def do_generator_switch(run, model, case):
+    """one ledger database, the same mnemonic loaded as a single-address account and as a deterministic account
+    (in the order of the case): each must list its own addresses -- the deterministic receiving chain is m/0/0, m/0/1 ...
+    in order, the single-address account has exactly the account key's address -- and the private key handed out for a
+    listed address must own it"""
+    lname = case['ledger']
+    prefix = LEDGERS[lname].pubkey_address_prefix
+    order = case['order']                      # e.g. ['single', 'hd'] or ['hd', 'single', 'hd']
+    gap = case['gap']
+    tmp = tempfile.mkdtemp(prefix='c06_')
+    loop = asyncio.new_event_loop()
+    run.case(case, nontrivial=True)
+    run.count('generator-switch:' + '>'.join(order))
+    try:
+        async def go():
+            ledger = LEDGERS[lname]({'db': Database(os.path.join(tmp, 'w.db')), 'headers': Headers(':memory:')})
+            await ledger.db.open()
+            try:
+                accounts = {}
+                for kind in order:
+                    if kind not in accounts:
+                        gen = ({'name': 'single-address'} if kind == 'single' else
+                               {'name': 'deterministic-chain', 'receiving': {'gap': gap, 'maximum_uses_per_address': 1},
+                                'change': {'gap': 2, 'maximum_uses_per_address': 1}})
+                        accounts[kind] = Account.from_dict(ledger, Wallet(), {'seed': case['mnemonic'], 'address_generator': gen})
+                    await accounts[kind].ensure_address_gap()
+                out = {'pk': None}
+                for kind, acc in accounts.items():
+                    rs = await acc.receiving.get_address_records(order_by='n asc')
+                    rows = [[r['pubkey'].n, r['address']] for r in rs]
+                    keys = []
+                    for n, addr in rows[:3]:
+                        k = await ledger.get_private_key_for_address(acc.wallet, addr)
+                        keys.append([addr, k.address if k is not None else None])
+                    out[kind] = {'rows': rows, 'keys': keys}
+                    out['pk'] = key_obs(acc.public_key)
+                return out
+            finally:
+                await ledger.db.close()
+        impl = must('Account.from_dict / ensure_address_gap on a shared database', lambda: loop.run_until_complete(go()))
+    finally:
+        loop.close()
+        shutil.rmtree(tmp, ignore_errors=True)
+    ref = RefKey.from_seed(ref_stretch(case['mnemonic'], 'lbryum'))
+    chain0 = ref.neuter().child(0)
+    first, then = order[0], [k for k in order if k != order[0]][0]
+    names = {'single': 'single-address', 'hd': 'deterministic-chain'}
+    sig = {'op': 'generator_switch', 'first': names[first], 'then': names[then]}
+    bad = None
+    if 'hd' in impl:
+        rows = impl['hd']['rows']
+        want = [[i, chain0.child(i).address(prefix)] for i in range(max(gap, len(rows)))][:len(rows)]
+        if len(rows) < gap or rows != want:
+            bad = (f'the same mnemonic does not regenerate the receiving chain m/0/0, m/0/1, ...: an earlier/later '
+                   f'single-address account of that mnemonic in the same database leaves rows {rows[:3]}.. '
+                   f'(expected {want[:3]}.., master address {ref.address(prefix)})')
+        else:
+            for addr, owner in impl['hd']['keys']:
+                if owner != addr:
+                    bad = f'private key handed out for receiving address {addr} belongs to {owner}'
+    if not bad and 'single' in impl:
+        if impl['single']['rows'] != [[0, ref.address(prefix)]]:
+            bad = (f'single-address account of the mnemonic lists {impl["single"]["rows"][:3]}.. instead of its one address '
+                   f'{ref.address(prefix)} (rows of the deterministic account of the same mnemonic are taken for its own)')
+        elif impl['single']['keys'] != [[ref.address(prefix), ref.address(prefix)]]:
+            bad = f'private key handed out for the single address: {impl["single"]["keys"]}'
+    if bad:
+        run.violation(case, bad, signature=sig)
+    # the model describes the code as it is: both managers see every chain-0 row of the account id
+    mops = [['single'] if k == 'single' else ['ensure', gap] for k in order]
+    mod = model.call('shared_run', prefix=prefix.hex(), acct=impl['pk'], ops=mops, flt=False)
+    run.compare('C06.shared_hd_rows', case, impl.get('hd', {}).get('rows', []), [[r['n'], r['addr']] for r in mod['hd']])
+    run.compare('C06.shared_single_rows', case, impl.get('single', {}).get('rows', []), [[r['n'], r['addr']] for r in mod['single']])
+
+
 def do_stretch(run, model, case):
     """Mnemonic.mnemonic_to_seed (PBKDF2-HMAC-SHA512, 2048 rounds, not modelled) against hashlib, then the
     master key of that seed against the model"""
@@ -1301,7 +1425,7 @@ DISPATCH = {
     'b58enc': do_b58enc, 'b58dec': do_b58dec, 'b58check': do_b58check, 'b58check_corrupt': do_b58check_corrupt,
     'xparse': do_xparse, 'xstr': do_xstr, 'derive': do_derive, 'forced': do_forced, 'account': do_account,
     'single': do_single, 'stretch': do_stretch, 'stretch_multi': do_stretch_multi,
-    'addrcheck': do_addrcheck, 'addrvalid': do_addrvalid, 'normalize': do_normalize, 'stretch_u': do_stretch_u, 'mn': do_mn, 'mndec': do_mndec, 'wordlists': do_wordlists, 'make_seed': do_make_seed, 'scalar': do_scalar,
+    'addrcheck': do_addrcheck, 'addrvalid': do_addrvalid, 'generator_switch': do_generator_switch, 'normalize': do_normalize, 'stretch_u': do_stretch_u, 'mn': do_mn, 'mndec': do_mndec, 'wordlists': do_wordlists, 'make_seed': do_make_seed, 'scalar': do_scalar,
 }
 
 # ----------------------------------------------------------------------------------------------
@@ -1365,8 +1489,11 @@ def gen_addrcheck(rng, n, full_every):
     for j in range(n):
         lname = ['main', 'test', 'regtest'][j % 3]
         kind = rng.choice(['pubkey', 'pubkey', 'script'])
-        h = rng.choice([bytes(rng.getrandbits(8) for _ in range(20))] * 4 + [b'\0' * 20, b'\xff' * 20,
-                       b'\0' * 10 + bytes(rng.getrandbits(8) for _ in range(10))])
+        vbytes = [LEDGERS[lname].pubkey_address_prefix[0], LEDGERS[lname].script_address_prefix[0]]
+        rnd = bytes(rng.getrandbits(8) for _ in range(20))
+        # deterministic family: hashes that begin with (runs of) the ledger's own version bytes, zeros, 0xff
+        h = [rnd, bytes([vbytes[0]]) + rnd[1:], bytes([vbytes[1]]) + rnd[1:], bytes([vbytes[0], vbytes[1], vbytes[0]]) + rnd[3:],
+             b'\0' * 20, b'\xff' * 20, b'\0' * 10 + rnd[10:], bytes([vbytes[j % 2]]) * 20][j % 8]
         ln = 35
         corrupt = [['swap', pos, ''] for pos in range(ln)]             # every transposition
         if j % full_every == 0:
@@ -1798,6 +1925,19 @@ def main(run):
         check_case(run, model, case)
     for case in gen_b58check(rng, 45 * n, 30 if q else 10):
         check_case(run, model, case)
+    # deterministic family: hash160 values that begin with the ledger's own version bytes (no corruption sweep)
+    for lname, cls in LEDGERS.items():
+        for vb in (cls.pubkey_address_prefix[0], cls.script_address_prefix[0]):
+            for lead in (1, 2, 20):
+                h = bytes([vb]) * lead + bytes(rng.getrandbits(8) for _ in range(20 - lead))
+                for kind in ('pubkey', 'script'):
+                    check_case(run, model, {'op': 'addrcheck', 'ledger': lname, 'kind': kind, 'h160': h.hex(), 'corrupt': []})
+    # one database, the same mnemonic as single-address and as deterministic account, in each order
+    english_words = wordlist('english')
+    for order in (['single', 'hd'], ['hd', 'single'], ['single', 'hd', 'single', 'hd']) * n:
+        check_case(run, model, {'op': 'generator_switch', 'ledger': rng.choice(['main', 'regtest']), 'order': order,
+                                'gap': rng.choice([1, 3, 5, 20]),
+                                'mnemonic': ' '.join(rng.choice(english_words) for _ in range(rng.choice([1, 12])))})
     for case in gen_addrcheck(rng, 6 * n, 6 if q else 3):
         check_case(run, model, case)
     for case in gen_unicode(rng, 120 * n):
